@@ -435,6 +435,82 @@ def _mask(ctx) -> None:
                    f"- t == t would raise RecursionError")
     ctx.ob("d.dispatch-exhaustive", f, "final-raise", ok, "unsupported key types raise SerifTypeError", f.node,
            message="Vector.__getitem__ can fall off its end (or return None) for an unsupported key type instead of raising SerifTypeError")
+    # table comparisons: the operand is paired column by column only when it is itself two-dimensional (a plain vector has one
+    # element per ROW, like a list); in the row-wise form a None entry makes its whole row False (C06), it is not compared as a scalar
+    tc = prog.func("table.Table._elementwise_compare")
+    ci2 = _iof(prog, tc)
+    CS, CO2 = ("param", tc.params[0]), ("param", tc.params[1])
+    oth = (CO2, ("call", ("attr", CS, "_check_duplicate"), (CO2,), ()))
+    col_pair = row_pair = 0
+    tprobs = []
+    for e in ci2.events:
+        if e.kind != "elem" or not e.loops:
+            continue
+        lp = ci2.loops[e.loops[-1]]
+        if lp.domain is None or lp.domain[0] != "tuple" or len(lp.domain[1]) != 2:
+            continue
+        d0, d1 = lp.domain[1]
+        fc = [c for c, pol in flatten_conds(e.conds) if pol]
+        if d1[0] == "call" and d1[1][0] == "attr" and d1[1][2] == "cols" and d1[1][1] in oth:
+            col_pair += 1
+            two_d = any((c[0] == "cmp" and c[1] == "Eq" and ("const", "int", 2) in (c[2], c[3])
+                         and any(x[0] == "call" and x[1][0] == "attr" and x[1][2] == "ndims" and x[1][1] in oth for x in (c[2], c[3])))
+                        or (c[0] == "call" and c[1] == ("name", "isinstance") and c[2][0] in oth and c[2][1] == ("name", "Table")) for c in fc)
+            if not two_d:
+                tprobs.append("the operand's .cols() are zipped with the table's columns although the operand may be a plain vector (its "
+                              ".cols() are its ELEMENTS): t == v differs from v == t and t == list(v), t < v raises 'Column count mismatch'")
+        elif d0 == CS and d1 in oth:
+            row_pair += 1
+            y = ("elem", d1, lp.id)
+            guarded = any(x[0] == "cmp" and x[1] in ("Is", "IsNot") and y in (x[2], x[3]) and ("const", "NoneType", None) in (x[2], x[3])
+                          for x in subterms(e.value))
+            if not guarded:
+                tprobs.append("in the row-wise form a None entry of the sequence is compared with the row as a scalar: t != [None, 2] is True "
+                              "in the None row where column != sequence is False")
+    ctx.ob("d.dispatch-exhaustive", tc, "table-compare-forms", not tprobs and col_pair >= 1 and row_pair >= 1,
+           f"{col_pair} column-wise form(s) guarded by 2-D-ness, {row_pair} row-wise form(s) keeping None rows False", tc.node,
+           message="Table._elementwise_compare: " + ("; ".join(tprobs) or "column-wise / row-wise forms not found"))
+    # one name and a tuple of names are resolved by the same forms (exact stored name; accessor name; <accessor>__<position>;
+    # col<position>_): t['col_a'] and t['col_a',] find the same column
+    single, multi = _name_forms(prog)
+    ctx.ob("d.dispatch-exhaustive", tg, "name-forms-agree", single == multi and bool(single),
+           f"single-name and multi-name selection accept the same {len(single)} name forms", tg.node,
+           message="Table.__getitem__: a name in a tuple of names is matched by other forms than a single name: "
+                   f"only single: {sorted(map(str, single - multi))[:2]}; only multi: {sorted(map(str, multi - single))[:2]} - "
+                   "t['col_a'] works while t['col_a',] raises SerifKeyError (or the reverse)")
+    # a mask of the wrong length raises (a real raise: an assert vanishes under python -O)
+    from ..sites2 import all_sites2
+    from ..symx import deep_subterms as _deep
+    from ..symx import flatten_conds
+    masks = []
+    for st in all_sites2(prog):
+        if st.top is tg and st.kind == "Vector" and st.data is not None:
+            keyt = None
+            for x in _deep(st.it, st.data):
+                if x[0] == "sub" and x[1][0] == "elem" and x[1][1] == ("attr", TSELF, "_underlying"):
+                    keyt = x[2]
+            if keyt is None:
+                continue
+            conds = [c for c, pol in flatten_conds(st.ev.conds) if pol]
+            is_mask = any(c[0] == "cmp" and c[1] == "Eq" and any(y == ("name", "bool") for y in subterms(c)) for c in conds) or \
+                any(c[0] == "cmp" and c[1] == "Eq" and c[3] == ("set", (("name", "bool"),)) for c in conds)
+            if is_mask:
+                masks.append((st, keyt))
+    bad_masks = []
+    for st, keyt in masks:
+        lk = ("call", ("name", "len"), (keyt,), ())
+        guarded = any(e.kind == "raise" and e.term[0] == "call" and e.term[1][0] == "name" and e.term[1][1] != "AssertionError"
+                      and e.conds and e.conds[-1][0][0] == "cmp" and lk in (e.conds[-1][0][2], e.conds[-1][0][3])
+                      and ln in (e.conds[-1][0][2], e.conds[-1][0][3])
+                      and tuple(st.ev.conds[:len(e.conds) - 1]) == tuple(e.conds[:-1])                  # same branch ...
+                      and (e.conds[-1][0], not e.conds[-1][1]) in st.ev.conds[len(e.conds) - 1:]        # ... the selection on its other side
+                      for e in ti.events)
+        if not guarded:
+            bad_masks.append(st)
+    ctx.ob("d.dispatch-exhaustive", tg, "mask-length", bool(masks) and not bad_masks,
+           f"{len(masks)} table mask selections, each after a raising length comparison", (bad_masks[0].node if bad_masks else tg.node),
+           message="Table.__getitem__: a boolean mask is applied without a RAISING comparison of its length with the row count (an assert is "
+                   "not one: bare AssertionError, and no check at all under python -O)")
 
 
 # ---------------------------------------------------------------------------------------------
@@ -504,6 +580,67 @@ def _missing(ctx) -> None:
     probs += [f"the loop over the requested names can be left early by `{short(s, 40)}`" for s in early + brk]
     ctx.ob("d.must-append", f, "exact-first", not probs, "per requested name the exact stored-name scan comes first and yields a copy", lp,
            message="; ".join(p if isinstance(p, str) else p[0] for p in probs))
+
+
+def _name_forms(prog):
+    """(forms of the single-name branch, forms of the multi-name branch): the comparisons  <something about a column> == <name>.lower()
+    / == <name>  under which a column is selected, with the column, its position and the name abstracted."""
+    from ..symx import Interp as SInterp
+    from ..symx import flatten_conds
+    f = prog.func("table.Table.__getitem__")
+    it = SInterp(prog, f)
+    S = ("param", f.params[0])
+    cols = ("attr", S, "_underlying")
+
+    def norm(t, name):
+        if t == name:
+            return ("NAME",)
+        if not isinstance(t, tuple):
+            return t
+        if t and t[0] == "elem" and t[1] == cols:
+            return ("COL",)
+        if t and t[0] == "idx":
+            return ("IDX",)
+        return tuple(norm(x, name) for x in t)
+
+    def forms(events, name):
+        out = set()
+        for e in events:
+            for c, pol in flatten_conds(e.conds):
+                if pol and c[0] == "cmp" and c[1] == "Eq":
+                    n = norm(c, name)
+                    if any(x == ("NAME",) for x in _walk(n)) and any(x == ("COL",) or x == ("IDX",) for x in _walk(n)):
+                        a, b = n[2], n[3]
+                        out.add(("Eq",) + tuple(sorted((a, b), key=repr)))
+        return out
+    # single name
+    KEY = None
+    lit = None
+    for e in it.events:
+        for t, pol in flatten_conds(e.conds):
+            if t[0] == "call" and t[1] == ("name", "isinstance") and len(t[2]) == 2 and t[2][1] == ("name", "str") and pol \
+                    and any(x == ("param", f.params[1]) for x in _walk(t[2][0])):
+                KEY, lit = t[2][0], t
+                break
+        if KEY is not None:
+            break
+    if KEY is None:
+        raise AnalysisError("Table.__getitem__: string-key branch not found")
+    single = forms([e for e in it.events if e.kind == "return" and (lit, True) in flatten_conds(e.conds)], KEY)
+    mit, Ln, rc, els = multi_name_selection(prog)
+    name = ("elem", mit.loops[Ln].iter, Ln)
+    # the multi-name interpreter is another Interp of the same function: loop ids agree (deterministic)
+    multi = forms(els, name)
+    return single, multi
+
+
+def _walk(t):
+    stack = [t]
+    while stack:
+        x = stack.pop()
+        yield x
+        if isinstance(x, tuple):
+            stack.extend(y for y in x if isinstance(y, tuple))
 
 
 def multi_name_selection(prog):
@@ -633,6 +770,19 @@ def _rows(ctx) -> None:
 
 _V, _T = "vector", "table"
 MUTANTS = [
+    dict(id="table-compare-any-vector-as-table", module="table",
+         old="		if isinstance(other, Vector) and other.ndims() == 2:\n			# (a table; a plain vector",
+         new="		if isinstance(other, Vector):\n			# (a table; a plain vector", rules=["d.dispatch-exhaustive"], desc="reverts fix 804fe3e"),
+    dict(id="table-compare-none-row-as-scalar", module="table",
+         old="			return Vector(tuple(op(x, y) if y is not None else Vector([False] * n_cols)\n				for x, y in zip(self, other, strict=True))).T",
+         new="			return Vector(tuple(op(x, y)\n				for x, y in zip(self, other, strict=True))).T", rules=["d.dispatch-exhaustive"],
+         desc="reverts fix 776a7e2"),
+    dict(id="tuple-selection-drops-accessor-form", module="table",
+         old="							elif base == col_name_lower:\n								# (the accessor name itself, as for a single name: t['col_a'] and t['col_a',])\n								selected_cols.append(col.copy())\n								found = True\n								break\n",
+         new="", rules=["d.dispatch-exhaustive"], desc="reverts fix c054980: t['col_a',] raises although t['col_a'] finds the column"),
+    dict(id="table-mask-length-by-assert", module="table", count=2, nth=0,
+         old="			if len(self) != len(key):\n				raise ValueError(f\"Boolean mask length mismatch: {len(self)} != {len(key)}\")",
+         new="			assert (len(self) == len(key))", rules=["d.dispatch-exhaustive"], desc="reverts fix 5d20556"),
     dict(id="self-operand-deepcopied", module="vector", old="			return other.copy()", new="			return deepcopy(other)",
          rules=["d.dispatch-exhaustive"], desc="the defect repaired by fix f22891c: t == t raises RecursionError"),
     dict(id="table-getitem-falls-off", module="table",
